@@ -109,6 +109,7 @@ type HandlerObs struct {
 	Deadline int64     `json:"deadline"` // ms until deadline at entry, -1 none
 	HasDL    bool      `json:"hasdl"`
 	Method   string    `json:"method"`
+	Tagged   bool      `json:"tagged"` // the handler's context carries the value TagRPC attached
 }
 type StatusObs struct {
 	Code     int      `json:"code"`
@@ -140,13 +141,17 @@ type StatEv struct {
 	Meth string `json:"meth"`
 	CS   bool   `json:"cs"`
 	SS   bool   `json:"ss"`
+	Tag  bool   `json:"tag"` // the event arrived on the context TagRPC returned
 }
 type ICall struct {
 	Kind string `json:"kind"` // unary | stream
 	Meth string `json:"meth"`
 	CS   bool   `json:"cs"`
 	SS   bool   `json:"ss"`
-	Err  int    `json:"err"` // code of the error the interceptor saw from the handler, -1 none
+	Err  int    `json:"err"`  // code of the error the interceptor saw from the handler, -1 none
+	Recv int    `json:"recv"` // stream: messages the interceptor's wrapping stream saw arrive (successful RecvMsg)
+	Send int    `json:"send"` // stream: messages it saw leave (SendMsg)
+	Tag  bool   `json:"tag"`  // the interceptor's context carries the stats tag (stats on)
 }
 type RpcEv struct {
 	Ev      string     `json:"ev"`
@@ -464,6 +469,7 @@ func (e *rpcEnv) enter(ctx context.Context, full string) {
 	defer e.mu.Unlock()
 	e.h.Invoked++
 	e.h.Method = full
+	e.h.Tagged = tagged(ctx, e)
 	md, _ := metadata.FromIncomingContext(ctx)
 	e.h.MD = MD{}
 	for k, v := range md {
@@ -523,12 +529,16 @@ func (e *rpcEnv) stream(full string, md protoreflect.MethodDescriptor, ss grpc.S
 // stats.Handler
 func (e *rpcEnv) TagRPC(ctx context.Context, info *stats.RPCTagInfo) context.Context {
 	e.mu.Lock()
-	e.stats = append(e.stats, StatEv{T: "tag", Meth: info.FullMethodName, Err: -1})
+	e.stats = append(e.stats, StatEv{T: "tag", Meth: info.FullMethodName, Err: -1, Tag: true})
 	e.mu.Unlock()
-	return ctx
+	return context.WithValue(ctx, statsTagKey{}, e)
 }
+
+type statsTagKey struct{}
+
+func tagged(ctx context.Context, e *rpcEnv) bool { return ctx.Value(statsTagKey{}) == e }
 func (e *rpcEnv) HandleRPC(ctx context.Context, s stats.RPCStats) {
-	ev := StatEv{Err: -1}
+	ev := StatEv{Err: -1, Tag: tagged(ctx, e)}
 	switch v := s.(type) {
 	case *stats.InHeader:
 		ev.T, ev.Meth = "inheader", v.FullMethod
@@ -553,6 +563,27 @@ func (e *rpcEnv) HandleRPC(ctx context.Context, s stats.RPCStats) {
 }
 func (e *rpcEnv) TagConn(ctx context.Context, _ *stats.ConnTagInfo) context.Context { return ctx }
 func (e *rpcEnv) HandleConn(context.Context, stats.ConnStats)                       {}
+
+// watchStream is what a stream interceptor typically passes on: a wrapper that sees every message go by.
+type watchStream struct {
+	grpc.ServerStream
+	recv, send int
+}
+
+func (w *watchStream) RecvMsg(m interface{}) error {
+	err := w.ServerStream.RecvMsg(m)
+	if err == nil {
+		w.recv++
+	}
+	return err
+}
+func (w *watchStream) SendMsg(m interface{}) error {
+	err := w.ServerStream.SendMsg(m)
+	if err == nil {
+		w.send++
+	}
+	return err
+}
 
 func hasOpt(c RpcCase, o string) bool {
 	for _, x := range c.Opts {
@@ -581,16 +612,18 @@ func newRpcEnv(c RpcCase) (*rpcEnv, error) {
 		opts = append(opts, larking.UnaryServerInterceptorOption(func(ctx context.Context, req interface{}, info *grpc.UnaryServerInfo, handler grpc.UnaryHandler) (interface{}, error) {
 			resp, err := handler(ctx, req)
 			e.mu.Lock()
-			e.icalls = append(e.icalls, ICall{Kind: "unary", Meth: info.FullMethod, Err: codeOf(err)})
+			e.icalls = append(e.icalls, ICall{Kind: "unary", Meth: info.FullMethod, Err: codeOf(err), Tag: tagged(ctx, e)})
 			e.mu.Unlock()
 			return resp, err
 		}))
 	}
 	if hasOpt(c, "streamInt") {
 		opts = append(opts, larking.StreamServerInterceptorOption(func(srv interface{}, ss grpc.ServerStream, info *grpc.StreamServerInfo, handler grpc.StreamHandler) error {
-			err := handler(srv, ss)
+			ws := &watchStream{ServerStream: ss}
+			err := handler(srv, ws)
 			e.mu.Lock()
-			e.icalls = append(e.icalls, ICall{Kind: "stream", Meth: info.FullMethod, CS: info.IsClientStream, SS: info.IsServerStream, Err: codeOf(err)})
+			e.icalls = append(e.icalls, ICall{Kind: "stream", Meth: info.FullMethod, CS: info.IsClientStream, SS: info.IsServerStream, Err: codeOf(err),
+				Recv: ws.recv, Send: ws.send, Tag: tagged(ss.Context(), e)})
 			e.mu.Unlock()
 			return err
 		}))
